@@ -1,5 +1,6 @@
 import Insim.Model.Track
 import Insim.Gen.Track
+import Insim.Lemmas.Reader
 /-
 C14 — the track table is coherent: code, wire bytes, flags and licence agree.
 Every theorem is about the seven tables regenerated from insim_core/src/track.rs; the row-wise facts
@@ -114,5 +115,21 @@ theorem names_distinct : (distinctB variantNames && Nat.beq variantNames.length 
 example : decode readRows [66, 76, 49, 82, 0, 0] = .ok 1 := by decide +kernel
 example : decode readRows [66, 76, 49, 82, 0, 1] = .err .decode := by decide +kernel
 example : (1 : Nat) ∈ variants ∧ variantNames[1]? = some [66, 108, 49, 114] := by decide +kernel
+
+/-! ### the six bytes reach the decoder through `read_exact`
+
+`Track::read_options` takes its bytes from whatever `Read + Seek` it is given; the source may hand them over in pieces. -/
+
+/-- **the decoder does not see how the source cuts its data**: read through `read_exact`, the field decodes to what its first
+six bytes decode to and the source is left right behind them; with fewer than six bytes left the read fails -/
+theorem segmented_read (pieces : List Bytes) :
+    (pieces.flatten.length < 6 ∧ Reader.decodeFrom 6 (decode readRows) pieces = (.err .decode, none)) ∨
+    (6 ≤ pieces.flatten.length ∧ ∃ rest, Reader.decodeFrom 6 (decode readRows) pieces = (decode readRows (pieces.flatten.take 6), some rest) ∧
+       rest.flatten = pieces.flatten.drop 6) :=
+  Reader.decodeFrom_spec 6 (decode readRows) pieces
+
+/-- a single `read` call is not enough: a source may deliver `BL1` and `R\0\0` separately, and the first three bytes NUL-padded
+are another configuration's wire form -/
+example : (Reader.read 6 [[66, 76, 49], [82, 0, 0]]).1 = [66, 76, 49] := by decide
 
 end Insim.Props.C14
